@@ -22,7 +22,7 @@ func graphSweep(c *Ctx, maxN int, thorough bool, emit func(g *gspec)) {
 	out := func(g *gspec) {
 		// shard on the specification itself, before paying for the build
 		hh := fnv.New32a()
-		fmt.Fprint(hh, g.N, g.Edges, g.Place, g.Shape, g.Names, g.FragEsc, g.Entry, g.Chain, g.EntrySpell, g.IDs, g.Site)
+		fmt.Fprint(hh, g.N, g.Edges, g.Place, g.Shape, g.Names, g.FragEsc, g.Entry, g.Chain, g.EntrySpell, g.IDs, g.Site, g.SameText)
 		if c.N > 1 && int(hh.Sum32()%uint32(c.N)) != c.Shard {
 			return
 		}
@@ -193,6 +193,21 @@ func graphSweep(c *Ctx, maxN int, thorough bool, emit func(g *gspec)) {
 					}
 				}
 			}
+			// E'. chains whose hops all read the same: "sub/o.json#/parameters/P1" in the root and again in sub/o.json,
+			// where it designates sub/sub/o.json
+			for _, entry := range []int{entParamChain, entResponseChain, entPathItemChain} {
+				for _, p0 := range []int{0, 2, 11} {
+					g := base.clone()
+					g.Entry = entry
+					g.SameText = true
+					g.Chain = []hop{{2, spShort}, {11, spShort}}
+					g.Place[0] = p0
+					for i := 1; i < n; i++ {
+						g.Place[i] = []int{11, 0, 2}[i%3]
+					}
+					out(g)
+				}
+			}
 			// F. target shapes (nested pointers, list elements, whole documents)
 			for shape := 1; shape <= 3; shape++ {
 				for i := 0; i < n; i++ {
@@ -266,6 +281,7 @@ func expandCheck2(c *Ctx, cs *expCase, which string) (string, string) {
 	expGuard.warm()
 	detObs := ""
 	nexec := 0
+	judged := map[string]bool{}
 	execs, points := exploreExpand(cs, budget, cs.MapBound, func(o expObs, choices []int) {
 		nexec++
 		if nexec == 1 && !f.Cyclic && wellFormed {
@@ -318,6 +334,13 @@ func expandCheck2(c *Ctx, cs *expCase, which string) (string, string) {
 		if o.Out == nil {
 			outcome = "output-not-encodable"
 			return
+		}
+		// an output already judged for this case (most map orders give the same bytes) is not judged again
+		if o.Raw != "" {
+			if judged[o.Raw] {
+				return
+			}
+			judged[o.Raw] = true
 		}
 		switch which {
 		case "meaning":
